@@ -49,9 +49,9 @@ theorem parsers_order : Generated.parsers =
 /-- The hand-specialised matchers were written for exactly these pattern texts. -/
 theorem patterns_unchanged :
     Generated.intPattern = "^(?P<Prefix>0[xX]+|0[bB]+|0|)(?P<Constant>(?<=0[xX])[\\da-fA-F]+|\\d+)(?P<Suffix>(?<=[eE])[\\w\\d+\\-.]*|\\w[\\w\\d.]*|)" ∧
-    Generated.floatExponentPattern = "^(?P<Constant>\\d+)(?P<Exponent>(?:[eE]+[-+]\\d+|[eE]+\\d+|(?:[eE][+-]?(?:[.\\d]+)?)+))(?P<Suffix>[\\w\\d._]*|)" ∧
-    Generated.floatFractionalPattern = "^(?P<Constant>(?:\\d+)?\\.\\d+|\\d+\\.)(?P<Exponent>(?:[eE]+[-+]\\d+|[eE]+\\d+|(?:[eE][+-]?(?:[.\\d]+)?)+)?)(?P<Suffix>[\\w\\d._]*|)" ∧
-    Generated.floatHexadecimalPattern = "^(?P<Constant>0[xX]+(?:[\\da-fA-F]+(?:\\.[\\da-fA-F]*)?|\\.[\\da-fA-F]+))(?P<Exponent>(?:[pP]+[-+][\\da-fA-F]+|[pP]+[\\da-fA-F]+|(?:[pP][+-]?(?:[.[\\da-fA-F]]+)?)+)?)(?P<Suffix>[\\w\\d._]*|)" ∧
+    Generated.floatExponentPattern = "^(?P<Constant>\\d+)(?P<Exponent>(?:[eE]+[-+]\\d+|[eE]+\\d+|(?:[eE][+-]?(?:(?:[.]|\\d)+)?)+))(?P<Suffix>[\\w\\d._]*|)" ∧
+    Generated.floatFractionalPattern = "^(?P<Constant>(?:\\d+)?\\.\\d+|\\d+\\.)(?P<Exponent>(?:[eE]+[-+]\\d+|[eE]+\\d+|(?:[eE][+-]?(?:(?:[.]|\\d)+)?)+)?)(?P<Suffix>[\\w\\d._]*|)" ∧
+    Generated.floatHexadecimalPattern = "^(?P<Constant>0[xX]+(?:[\\da-fA-F]+(?:\\.[\\da-fA-F]*)?|\\.[\\da-fA-F]+))(?P<Exponent>(?:[pP]+[-+][\\da-fA-F]+|[pP]+[\\da-fA-F]+|(?:[pP][+-]?(?:(?:[.]|[\\da-fA-F])+)?)+)?)(?P<Suffix>[\\w\\d._]*|)" ∧
     Generated.intPatternFlags = 96 ∧ Generated.floatExponentPatternFlags = 96 ∧
     Generated.floatFractionalPatternFlags = 96 ∧ Generated.floatHexadecimalPatternFlags = 96 := by
   decide +kernel
